@@ -14,7 +14,7 @@
              "QBE IL reference, Jumps: `jnz v, @a, @b` reads v as a WORD (low 32 bits of an 'l' temporary) and goes to @a iff it is non-zero",
              "representation invariant: a value of a type of size n < 8 lives in a temporary whose low n bytes are its value, other bits arbitrary",
              "floating operands: opcode level only (the compare instruction, its class and operands are checked; its IEEE meaning `unordered or !=` is taken from the reference, not executed)",
-             "typeint, typebool, typeulong as type.c defines them (stated in PRE: DFCC havocs globals); nullptr_t controlling expressions are outside the domain (convert() diagnoses them as an internal error)"]
+             "typeint, typebool, typeulong as type.c defines them (stated in PRE: DFCC havocs globals); nullptr_t controlling expressions are tested like pointers (C23 6.3.2.4)"]
 }
 */
 #include "qbe.c"
@@ -23,7 +23,7 @@
 #include "qbe_sem.h"
 #include "il_rec.c"
 
-extern int g_no_error;
+#include "lower_common.h"
 
 /* ghosts */
 u64 g_x;                 /* carrier of v */
@@ -34,25 +34,15 @@ int g_jk0;               /* b->jump.kind before the call */
 struct value *g_jarg0, *g_v;
 struct block *g_b, *g_jb0, *g_jb1, *g_l1, *g_l2;
 
-#define INTPROP (PROPSCALAR|PROPARITH|PROPREAL|PROPINT)
-#define FLTPROP (PROPSCALAR|PROPARITH|PROPREAL|PROPFLOAT)
-#define ISINTT(t) ((((t)->prop & ~PROPCHAR) == INTPROP) && \
-	(((t)->kind == TYPEBOOL && (t)->size == 1 && !(t)->u.basic.issigned) || \
-	 ((t)->kind == TYPECHAR && (t)->size == 1) || ((t)->kind == TYPESHORT && (t)->size == 2) || \
-	 (((t)->kind == TYPEINT || (t)->kind == TYPEENUM) && (t)->size == 4) || \
-	 (((t)->kind == TYPELONG || (t)->kind == TYPELLONG) && (t)->size == 8)))
-#define ISPTRT(t) ((t)->kind == TYPEPOINTER && (t)->size == 8 && (t)->prop == PROPSCALAR)
-#define ISFLTT(t) ((t)->prop == FLTPROP && (((t)->kind == TYPEFLOAT && (t)->size == 4) || \
-	((t)->kind == TYPEDOUBLE && (t)->size == 8) || ((t)->kind == TYPELDOUBLE && (t)->size == 16)))
-#define BASICT(T, k, n, s) ((T).kind == (k) && (T).size == (n) && (T).prop == INTPROP && (T).u.basic.issigned == (s))
+#define ISFLT3(t) (ISFLTT(t) || ISLDBLT(t))
 
 #define PRE(X) \
 	X(f != 0 && f->end == g_b && g_b != 0 && v == g_v && v != 0 && l1 == g_l1 && l2 == g_l2) \
 	X(g_hast == (t != 0)) \
 	X(IMP(g_hast, t != &typeint && t != &typebool && t != &typeulong)) \
-	X(IMP(g_hast, ISINTT(t) || ISPTRT(t) || ISFLTT(t))) \
+	X(IMP(g_hast, ISINTT(t) || ISPTRT(t) || ISNULLPTRT(t) || ISFLT3(t))) \
 	X(IMP(g_hast, g_sz == t->size && g_flt == ((t->prop & PROPFLOAT) != 0))) \
-	X(IMP(g_hast && !g_flt, g_sg == (t->kind != TYPEPOINTER && t->u.basic.issigned))) \
+	X(IMP(g_hast && !g_flt, g_sg == CSIGN(t))) \
 	X(BASICT(typeint, TYPEINT, 4, 1) && BASICT(typebool, TYPEBOOL, 1, 0) && BASICT(typeulong, TYPELONG, 8, 0)) \
 	X(v->kind == VALUE_TEMP && v->u.i == g_x) \
 	X(IMP(g_hast && t->kind == TYPEBOOL, spec_wrap(g_x, 1, 0) <= 1)) \
@@ -105,17 +95,7 @@ harness(void)
 	IN(int, in_jk);
 	struct type *t = in_hast ? &ty : 0;
 
-	ty.kind = in_kind;
-	ty.size = in_sz;
-	ty.align = in_sz;
-	if (in_kind == TYPEPOINTER) {
-		ty.prop = PROPSCALAR;
-	} else if (in_kind == TYPEFLOAT || in_kind == TYPEDOUBLE || in_kind == TYPELDOUBLE) {
-		ty.prop = FLTPROP;
-	} else {
-		ty.prop = INTPROP | (in_kind == TYPECHAR ? PROPCHAR : 0);
-		ty.u.basic.issigned = in_sg;
-	}
+	lc_mktype(&ty, in_kind, in_sz, in_sg);
 	typeint.kind = TYPEINT; typeint.size = 4; typeint.prop = INTPROP; typeint.u.basic.issigned = 1;
 	typebool.kind = TYPEBOOL; typebool.size = 1; typebool.prop = INTPROP; typebool.u.basic.issigned = 0;
 	typeulong.kind = TYPELONG; typeulong.size = 8; typeulong.prop = INTPROP; typeulong.u.basic.issigned = 0;
@@ -132,7 +112,7 @@ harness(void)
 	g_b = &blk; g_v = v; g_l1 = l1; g_l2 = l2;
 	g_hast = in_hast; g_sz = in_sz; g_x = in_x;
 	g_flt = in_hast && (ty.prop & PROPFLOAT) != 0;
-	g_sg = in_kind != TYPEPOINTER && in_sg;
+	g_sg = CSIGN(&ty);
 	g_jk0 = in_jk; g_jarg0 = blk.jump.arg; g_jb0 = blk.jump.blk[0]; g_jb1 = blk.jump.blk[1];
 	g_no_error = !(g_hast && g_flt && g_sz == 16);
 	CALL(PRE, POST, funcjnz(f, v, t, l1, l2));
